@@ -39,7 +39,7 @@ def _gen_vec(rng, d, cfg):
     if d <= 0 or rng.random() < w["leaf"]:
         r = rng.random()
         if cfg["nf"] and r < cfg["p_vf"]:
-            return ["vf", rng.randrange(cfg["nf"])]
+            return ["vf", rng.randrange(cfg["nf"]), rng.choice([0, 0, 0, 1, 2])]
         if r > 0.97:
             return ["vzero"]
         return ["v", rng.randrange(cfg["nv"])]
@@ -115,7 +115,7 @@ def _template(rng, cfg):
 
     def v():
         if cfg["nf"] and rng.random() < 0.3:
-            return ["vf", rng.randrange(cfg["nf"])]
+            return ["vf", rng.randrange(cfg["nf"]), rng.choice([0, 0, 1, 2])]
         return ["v", rng.randrange(nv)]
 
     def lin(*vs):
@@ -200,6 +200,7 @@ def generate(seed: int, run: int, tier: str) -> dict:
                 break
         asts.append(ast)
     p_evict = rng.choice([0.0, 0.0, 0.2, 0.5])
+    p_interrupt = rng.choice([0.0, 0.0, 0.15, 0.4])
     p_clear = rng.choice([0.0, 0.1, 0.4])
     p_diff = rng.choice([0.0, 0.3, 0.7]) if has_t else rng.choice([0.0, 0.1])
     fargs = [rng.choice([["t"], ["t"], ["t", "s0"], ["s0", "t"], ["0", "t"], ["t", "0"]]) if ns else rng.choice([["t"], ["t"], ["0", "t"]]) for _ in range(nf)]
@@ -225,6 +226,10 @@ def generate(seed: int, run: int, tier: str) -> dict:
                 ops.append({"op": "clear_cache"})
             mode = rng.choice(["auto", "auto", "uneval_doit", "ctx_uneval_doit"])
             evict = sorted(rng.sample(range(1, rng.choice([30, 120, 400])), rng.choice([1, 2, 3, 6]))) if rng.random() < p_evict else []
+            if rng.random() < p_interrupt:
+                # the same expression is first evaluated with an interrupt at the k-th seam call, then
+                # (further down, as usual) without: the interrupted attempt must leave nothing behind
+                ops.append({"op": "build", "ast": ast, "mode": "auto", "evict": [], "interrupt_at": rng.choice([1, 2, 3, 5, 8, 13, 21, 34, 55, 89])})
             if rng.random() < p_diff and _size(ast) <= 16:
                 var = "t" if has_t and rng.random() < 0.85 else ("s%d" % rng.randrange(ns) if ns else "t")
                 dop = {"op": "diff", "ast": ast, "var": var, "order": rng.choice([1, 1, 1, 2]) if _size(ast) <= 9 else 1, "via": rng.choice(["diff", "vector_diff", "derivative_doit"]), "evict": evict, "mode": rng.choice(["auto", "auto", "uneval"])}
@@ -347,9 +352,13 @@ class VirtualIds:
     def assign(self, obj, vid: int) -> None:
         self._remember(obj, id(obj), vid)
 
-    def begin_op(self, evict_at) -> None:
+    interrupt_at = 0
+    interrupted = 0
+
+    def begin_op(self, evict_at, interrupt_at: int = 0) -> None:
         self.op_calls = 0
         self.evict_at = set(evict_at or ())
+        self.interrupt_at = int(interrupt_at or 0)
 
     def tick(self) -> None:
         """One logical step: every call through a seam (`id`, `split_factor`, `into_terms`,
@@ -363,6 +372,9 @@ class VirtualIds:
             from sympy.core.cache import clear_cache  # pylint: disable=import-outside-toplevel
             clear_cache()
             self.evicted += 1
+        if self.op_calls == self.interrupt_at:
+            self.interrupted += 1
+            raise InjectedInterrupt()
 
     def virtual_id(self, obj) -> int:
         self.tick()
@@ -386,6 +398,11 @@ class OpTimeout(Exception):
 
 class StepBudget(Exception):
     pass
+
+
+class InjectedInterrupt(BaseException):
+    """Stands for KeyboardInterrupt / an alarm-driven timeout arriving at an arbitrary instant of
+    an evaluation. (BaseException: `except Exception` in the library must not swallow it.)"""
 
 
 def _tb_cycle(tail: bool = False) -> str:
@@ -510,13 +527,23 @@ def _cross(a, b):
     return (a[1] * b[2] - a[2] * b[1], a[2] * b[0] - a[0] * b[2], a[0] * b[1] - a[1] * b[0])
 
 
+def _applied_args(fargs_j, alt):
+    """The argument tuple a vector function is applied to at one use. alt=0: its usual arguments;
+    alt=1/2: the same function at another point (t replaced by s0 / by the constant 1/2)."""
+    if not alt:
+        return list(fargs_j)
+    rep = "s0" if alt == 1 and "s0" not in fargs_j else "q:1/2"  # never the same variable twice (documented NotImplemented)
+    return [rep if a == "t" else a for a in fargs_j]
+
+
 def ref_eval(ast, dom: Domain):
     """Reference model: value of a model AST. Vectors are 3-tuples."""
     tag = ast[0]
     if tag == "v":
         return dom.vec(ast[1])
     if tag == "vf":
-        args = [dom.rat(0) if a == "0" else dom.var(a) for a in dom.bind.fargs[ast[1]]]
+        names = _applied_args(dom.bind.fargs[ast[1]], ast[2] if len(ast) > 2 else 0)
+        args = [dom.rat(0) if a == "0" else (dom.rat(1, 2) if a == "q:1/2" else dom.var(a)) for a in names]
         return dom.vfunc(ast[1], args)
     if tag == "vzero":
         z = dom.rat(0)
@@ -790,7 +817,8 @@ def _build(ast, world: World, ev):
         return _get_vec(world, ast[1])
     if tag == "vf":
         f = world.vfuncs[ast[1]]
-        return f(*[sp.S.Zero if a == "0" else world.scalars[a] for a in world.fargs[ast[1]]])
+        names = _applied_args(world.fargs[ast[1]], ast[2] if len(ast) > 2 else 0)
+        return f(*[sp.S.Zero if a == "0" else (sp.Rational(1, 2) if a == "q:1/2" else world.scalars[a]) for a in names])
     if tag == "vzero":
         return sp.S.Zero
     if tag == "vadd":
@@ -972,7 +1000,7 @@ def child_run(job: dict) -> dict:
         elif kind in ("build", "diff"):
             ast = op["ast"]
             _needs_world(world, ast)
-            ids.begin_op(op.get("evict"))
+            ids.begin_op(op.get("evict"), op.get("interrupt_at", 0))
             ev_before = ids.evicted
             result = None
             err = None
@@ -997,6 +1025,11 @@ def child_run(job: dict) -> dict:
                         result = vm.VectorDerivative(expr, *dvars).doit()
                     else:
                         result = expr.diff(*dvars)
+            except InjectedInterrupt:
+                # the operation was interrupted by the schedule: no verdict about it; what matters is
+                # that every later operation in this process is still right
+                err = ("interrupted", "")
+                faults["interrupt"] = faults.get("interrupt", 0) + 1
             except OpTimeout:
                 err = ("wall", "")
             except StepBudget:
@@ -1012,7 +1045,9 @@ def child_run(job: dict) -> dict:
                 signal.setitimer(signal.ITIMER_REAL, 0)
                 ids.begin_op(None)
             faults["evict_mid_op"] += ids.evicted - ev_before
-            if err is not None and err[0] in ("wall", "budget"):
+            if err is not None and err[0] == "interrupted":
+                outcome = "interrupted"
+            elif err is not None and err[0] in ("wall", "budget"):
                 inconclusive.append("op-wall-timeout" if err[0] == "wall" else "op-step-budget")
                 outcome = err[0]
             elif err is not None:
@@ -1171,6 +1206,8 @@ def simplify(job: dict) -> list[dict]:
             for k in range(1, len(sub)):
                 out.append(with_op(dict(op, ast=_replace(ast, path, sub[:k] + sub[k + 1:]))))
     # (c) simpler fault parameters / modes
+    if op.get("interrupt_at"):
+        out.append(with_op({k: v for k, v in op.items() if k != "interrupt_at"}))
     if op.get("evict"):
         out.append(with_op(dict(op, evict=[])))
         for k in range(len(op["evict"])):
